@@ -88,7 +88,7 @@ CHECKS = {
             text="Seeded search with two separately reported halves per run: a fault-free real variational_gamma() "
                  "call checked at return against the three clauses of the statement (the strong clause), and the same "
                  "input stepped message by message under injected skip/rescale faults with the per-step invariant "
-                 "'(0,0) or proper gamma within [1/max_shape, max_shape]' followed by the real tail. The fault-free "
+                 "'(0,0) or proper gamma with shape <= max_shape' followed by the real tail. The fault-free "
                  "half is ordinary input/configuration exploration and is labelled as such in the evidence.",
             design_ref="DESIGN.md section 4 (C05), 3.5",
         ),
